@@ -1,7 +1,9 @@
 package main
 
 import (
+	"fmt"
 	"golang.org/x/tools/go/ssa"
+	"strings"
 )
 
 func init() {
@@ -53,6 +55,8 @@ func checkC12(c *Ctx, r *Report) {
 	checkDMTables(c, r)
 	// the Code 128 writer's value computation indexes its contents by position: folded over contents and forced code sets
 	checkCode128RoundTrip(c, r)
+	// the C40 / Text character encoders recurse for upper-shifted characters: folded for all 256 characters (also C02)
+	checkDMCharEncodersTotal(c, r)
 	// the Codabar writer sizes its module slice before it fills it: folded as a whole function (also C03)
 	checkCodabarWriterWhole(c, r)
 	// every renderer fills module blocks with SetRegion: its word arithmetic at the right and bottom edge (also C16, C14)
@@ -65,4 +69,41 @@ func checkC12(c *Ctx, r *Report) {
 	checkDMEdifactEOD(c, r)
 	checkDMC40EOD(c, r)
 	r.Note("not decided: termination of the Data Matrix mode loop (needs a ranking argument over data-dependent rewinds); the size clause (matrix never smaller than the symbol / the request) is decided by the rendering terms under C14")
+}
+
+// E-CHARENC: the recursive C40 / Text character encoders end for every character
+func checkDMCharEncodersTotal(c *Ctx, r *Report) {
+	r.Rule("E-CHARENC", "c40EncodeChar and textEncodeChar, which call themselves for an upper-shifted character, are folded for every byte value 0..255: the fold ends (no unbounded recursion - a stack overflow cannot be recovered from) and yields one to four values below 40 together with their count", 2)
+	for _, name := range []string{"c40EncodeChar", "textEncodeChar"} {
+		fd, p := c.funcDeclOf("datamatrix/encoder", name)
+		key := "datamatrix/encoder." + name
+		if fd == nil {
+			r.AnchorLost("E-CHARENC", key, "function not found")
+			continue
+		}
+		r.Analysed(key)
+		bad := ""
+		for ch := int64(0); ch < 256 && bad == ""; ch++ {
+			res, err := c.rpfCall(fd, p, []*Val{vint(ch), emptyBytes()}, nil)
+			if err != nil {
+				if strings.Contains(err.Error(), "unbounded recursion") {
+					bad = fmt.Sprintf("%s(0x%02X) never returns: %v", name, ch, err)
+				} else {
+					bad = fmt.Sprintf("?%s(0x%02X): %v", name, ch, err)
+				}
+				break
+			}
+			vals, ok := listInts(res[1])
+			if len(res) != 2 || !ok || res[0].K != VInt || res[0].I != int64(len(vals)) || len(vals) < 1 || len(vals) > 4 {
+				bad = fmt.Sprintf("%s(0x%02X) does not yield one to four values and their count", name, ch)
+				break
+			}
+			for _, v := range vals {
+				if v < 0 || v >= 40 {
+					bad = fmt.Sprintf("%s(0x%02X) produces value %d, outside 0..39", name, ch, v)
+				}
+			}
+		}
+		reportFold(r, c, "E-CHARENC", key, fd.Pos(), bad)
+	}
 }
